@@ -511,7 +511,11 @@ def gen_ops(rng, stats, malformed=False, execute=None, ncells=0):
         elif k < 80:
             ops.append(('ga', t, i, rng.choice(NAMES)))
         elif k < 88:
-            ops.append(('sa', t, i, rng.choice(EXT_NAMES), gen_val(rng, nreq, ncells)))
+            name = rng.choice(EXT_NAMES)
+            ops.append(('sa', t, i, name, ('d', rng.choice(['t', 'u', ''])) if rng.random() < .3 else gen_val(rng, nreq, ncells)))
+            if rng.random() < .6:      # read it back at once (descriptor values answer `__get__(request)`), from a random thread
+                answers.append(execute(ops[-1]))
+                ops.append(('ga', t if rng.random() < .8 else rng.randrange(nthreads), i, name))
         elif k < 93:
             ops.append(('cp', t, i))
         elif k < 97 and ncells:
